@@ -490,7 +490,8 @@ def execute(pops, exe, tag, want_model=True):
             for line in open(mout):
                 t = line.split()
                 if t and t[0] == "M":
-                    model[(int(t[1]), int(t[2]))] = {"fixed": parse_model(t[3]), "orig": parse_model(t[4])}
+                    model[(int(t[1]), int(t[2]))] = {"fixed": parse_model(t[3]), "orig": parse_model(t[4]), "hyp": t[5] == "H=1",
+                                                     "sat": [tuple(int(x) for x in p.split(".")) for p in t[6][4:].split(",") if p]}
     return impl, model, note, dt
 
 
@@ -508,3 +509,301 @@ def model_as_result(pop, m):
     return {"status": "OK", "more": m["more"], "streams": streams, "raw": ""}
 
 
+# ------------------------------------------------------------------ special cases, findings
+def tagdelay_case():
+    """Known finding tag-inline-reftime.  An undecided tag whose definition has an absolute time bound is
+    inlined into the query; SearchStreams evaluates the inlined TimeCondition with the reference time of the
+    OUTER query although its Duration is relative to the reference time of the tag's own Parse
+    (ConditionsSet.UpdateReferenceTime exists but is never called).  The bound drifts by the time between the
+    two Parse calls: here 1.5 s, in the server the age of the tag definition."""
+    s0 = {"id": 0, "ch": HOSTS4[0], "sh": HOSTS4[1], "cp": 1000, "sp": 80, "cb": 1, "sb": 1, "ft": 48 * SEC, "lt": 50 * SEC, "proto": "tcp"}
+    s1 = dict(s0, id=1, ft=120 * SEC, lt=121 * SEC)
+    e = ("time", "ftime", [(None, 47)])
+    pop = {"name": "tagdelay", "files": [[s0, s1]], "tagdelay_ms": 1500,
+           "tags": [{"name": "tag/a", "def": text_of(e), "expr": e, "state": {"0": 1, "1": 0}}],
+           "searches": [{"expr": ("tag", "tag", "a"), "q": "tag:a", "sort": [["id", 0]], "limit": 100, "skip": 0, "ids": None}]}
+    finish_tags(pop)
+    return pop
+
+
+def classify(pop, sr, kind):
+    """Slug of the known finding a failure belongs to, or None.  Matches the specific input, not the property."""
+    if pop.get("tagdelay_ms") and kind in ("length", "nomatch", "order") and any(
+            t["expr"][0] == "time" and any(v for v in t["state"].values()) for t in pop["tags"]):
+        return "tag-inline-reftime"
+    return None
+
+
+# ------------------------------------------------------------------ minimisation
+def run_one(pop, sr, exe, tag="min"):
+    p = dict(pop, searches=[sr])
+    finish_tags(p)
+    impl, model, note, _ = execute([p], exe, tag, want_model=bool(exe))
+    sp = spec(p, p["_truth"], sr)
+    res = impl.get((0, 0), {"status": "MISSING", "raw": "no line " + note[-300:]})
+    return p, sp, res, model.get((0, 0)), judge(p, sr, sp, res)
+
+
+def subexprs(e):
+    if e[0] in ("and", "or"):
+        for x in e[1]:
+            yield x
+        if len(e[1]) > 2:
+            for i in range(len(e[1])):
+                yield (e[0], e[1][:i] + e[1][i + 1:]) + tuple(e[2:])
+    elif e[0] == "not":
+        yield e[1]
+        for x in subexprs(e[1]):
+            yield ("not", x)
+    elif e[0] in ("num", "host", "time") and len(e[2]) > 1:
+        for i in range(len(e[2])):
+            yield (e[0], e[1], e[2][:i] + e[2][i + 1:])
+
+
+def minimise(pop, sr, kind, budget=120):
+    """Smallest population / search that still fails the oracle in the same way (real code only)."""
+    tests = [0]
+
+    def fails(p, s):
+        if tests[0] >= budget:
+            return False
+        tests[0] += 1
+        try:
+            _, _, _, _, why = run_one(p, s, None)
+        except Exception:
+            return False
+        return bool(why) and why[0] == kind
+
+    flat = [(fi, st) for fi, f in enumerate(pop["files"]) for st in f]
+
+    def rebuild(items):
+        files = [[st for fi, st in items if fi == k] for k in range(len(pop["files"]))]
+        return dict(pop, files=[f for f in files if f])
+
+    items = ddmin(flat, lambda it: fails(rebuild(it), sr), max_tests=60)
+    pop = rebuild(items)
+    changed = True
+    while changed and tests[0] < budget:
+        changed = False
+        cands = []
+        if sr["ids"] is not None:
+            cands.append(dict(sr, ids=None))
+        if sr["skip"]:
+            cands.append(dict(sr, skip=0))
+        for i in range(len(sr["sort"])):
+            cands.append(dict(sr, sort=sr["sort"][:i] + sr["sort"][i + 1:]))
+        for x in subexprs(sr["expr"]):
+            cands.append(dict(sr, expr=x, q=text_of(x)))
+        for c in cands:
+            if fails(pop, c):
+                sr, changed = c, True
+                break
+    used = set()
+
+    def walk(e):
+        if e[0] == "tag":
+            n = "%s/%s" % (e[1], e[2])
+            if n not in used:
+                used.add(n)
+                for t in pop["tags"]:
+                    if t["name"] == n:
+                        walk(t["expr"])
+        elif e[0] in ("and", "or"):
+            for x in e[1]:
+                walk(x)
+        elif e[0] == "not":
+            walk(e[1])
+    walk(sr["expr"])
+    p2 = dict(pop, tags=[t for t in pop["tags"] if t["name"] in used])
+    if fails(p2, sr):
+        pop = p2
+    return pop, sr
+
+
+# ------------------------------------------------------------------ main
+def gen_cases(rng, npops, nsearch):
+    pops = []
+    for i in range(npops):
+        pop = gen_population(rng, "g%d" % i)
+        truth, exprs = gen_tags(rng, pop)
+        names = [t["name"] for t in pop["tags"]]
+        pop["searches"] = [gen_search(rng, pop, names, exprs) for _ in range(nsearch)]
+        pops.append(pop)
+    return pops
+
+
+def public(pop):
+    return {k: v for k, v in pop.items() if not k.startswith("_")}
+
+
+def load_case(path):
+    obj = json.load(open(path))
+    pop = obj["pop"]
+    finish_tags(pop)
+    return pop
+
+
+def same_obs(res, m):
+    return res["status"] == "OK" and [(s["file"], s["idx"]) for s in res["streams"]] == [tuple(x) for x in m["pos"]] and res["more"] == m["more"]
+
+
+def main(tier, seed, replay=None):
+    t0 = time.time()
+    proof = Proof(PROP)
+    exe = None
+    build_note = ""
+    try:
+        exe, _ = build_model(PROP, "ExtractC02.v", os.path.join(ROOT, "ocaml/c02"), ["theories/Search.v"])
+    except Exception as ex:  # reported below as a broken correspondence
+        build_note = "model build failed: %s" % str(ex)[-800:]
+    rng = random.Random(seed)
+    pops, ncorpus = [], 0
+    cdir = os.path.join(ROOT, "corpus", PROP)
+    if replay:
+        pops = [load_case(replay)]
+    else:
+        if os.path.isdir(cdir):
+            for fn in sorted(os.listdir(cdir)):
+                if fn.endswith(".json"):
+                    pops.append(load_case(os.path.join(cdir, fn)))
+        pops.append(tagdelay_case())
+        ncorpus = len(pops)
+        pops += gen_cases(rng, 60 if tier == "quick" else 1200, 35)
+    impl, model, note, go_s = execute(pops, exe, "main")
+    note = (build_note + " " + note).strip()
+    known, fixed = known_findings(PROP)
+    known_ids = {k.get("id") for k in known}
+    nviol, nknown, stats = 0, 0, {"searches": 0, "nonempty": 0, "paged": 0, "more": 0, "tie_drift": 0, "model_compared": 0,
+                                  "orig_model_differs": 0, "kinds": {}}
+    failures, model_bad, seen_known = [], [], set()
+    distinct = set()
+    dist = {"files": {}, "limit": {}, "nkeys": {}, "tags": {}, "idrestricted": 0, "shadowed_pops": 0}
+    for pi, pop in enumerate(pops):
+        dist["files"][len(pop["files"])] = dist["files"].get(len(pop["files"]), 0) + 1
+        dist["tags"][len(pop["tags"])] = dist["tags"].get(len(pop["tags"]), 0) + 1
+        if sum(len(f) for f in pop["files"]) > len(visible_of(pop)):
+            dist["shadowed_pops"] += 1
+        for si, sr in enumerate(pop["searches"]):
+            stats["searches"] += 1
+            sp = spec(pop, pop["_truth"], sr)
+            res = impl.get((pi, si), {"status": "MISSING", "raw": "no output line for this search " + note[-300:]})
+            why = judge(pop, sr, sp, res)
+            dist["limit"][sr["limit"]] = dist["limit"].get(sr["limit"], 0) + 1
+            dist["nkeys"][len(sr["sort"])] = dist["nkeys"].get(len(sr["sort"]), 0) + 1
+            dist["idrestricted"] += sr["ids"] is not None
+            if sp["n"]:
+                stats["nonempty"] += 1
+                distinct.add((pi, sr["q"], repr(sr["sort"]), sr["limit"], sr["skip"], repr(sr["ids"])))
+            stats["paged"] += sr["skip"] > 0
+            stats["more"] += sp["more"]
+            m = model.get((pi, si))
+            if why:
+                stats["kinds"][why[0]] = stats["kinds"].get(why[0], 0) + 1
+                failures.append((pi, si, why))
+            elif m is not None:
+                stats["model_compared"] += 1
+                mwhy = judge(pop, sr, sp, model_as_result(pop, m["fixed"]))
+                # the hypotheses of the theorems, checked on what the real buildSearchObjects compiled:
+                # lookups list every stream the filters accept; OR over the parts = the query's meaning
+                vis = visible_of(pop)
+                sat = set(m["sat"])
+                want = {(s["file"], pop["files"][s["file"]].index({k: v for k, v in s.items() if k != "file"}))
+                        for s in vis.values() if eval_expr(sr["expr"], s, pop["_truth"])}
+                got = {(fi, si) for fi, si in sat if vis[pop["files"][fi][si]["id"]]["file"] == fi}
+                if not m["hyp"]:
+                    mwhy = ("hypothesis", "a lookup misses a stream index that the filters of the same part accept")
+                elif want != got:
+                    mwhy = ("hypothesis", "compiled parts accept %s on the visible streams, the query denotes %s" % (sorted(got), sorted(want)))
+                if mwhy:
+                    model_bad.append((pi, si, mwhy))
+                elif not same_obs(res, m["fixed"]):
+                    stats["tie_drift"] += 1
+                if not same_obs(res, m["orig"]):
+                    stats["orig_model_differs"] += 1
+            elif exe and res["status"] == "OK":
+                model_bad.append((pi, si, ("missing", "the model driver printed nothing for this search")))
+    if replay:
+        pop, sr = pops[0], pops[0]["searches"][0]
+        print("query:", sr["q"], "sort:", sr["sort"], "limit:", sr["limit"], "skip:", sr["skip"], "ids:", sr["ids"])
+        print("spec  :", spec(pop, pop["_truth"], sr))
+        print("impl  :", impl.get((0, 0), {}).get("raw"))
+        print("model :", model.get((0, 0)))
+        print("verdict:", failures[0][2] if failures else "ok")
+    # ---- failures of the implementation against the property
+    reported = set()
+    for pi, si, why in failures:
+        pop, sr = pops[pi], pops[pi]["searches"][si]
+        slug = classify(pop, sr, why[0])
+        if slug and slug in known_ids:
+            if slug not in seen_known:
+                print("KNOWN-FINDING: property=%s id=%s %s (%s)" % (PROP, slug, sr["q"], why[1][:120]), flush=True)
+                seen_known.add(slug)
+            nknown += 1
+            continue
+        if why[0] in reported and len(reported) >= 1 and nviol >= 3:
+            continue  # one replay per kind of failure, at most a few
+        reported.add(why[0])
+        if why[0] == "status" and "MISSING" in why[1] or (why[0] == "status" and "PARSEERR" in why[1]):
+            violation(PROP, {"property": PROP, "broken": "correspondence harness could not run this case against this tree",
+                             "note": note, "case": why[1], "query": sr["q"]}, no_input=True)
+            nviol += 1
+            continue
+        mpop, msr = (pop, sr) if replay else minimise(public(pop), sr, why[0])
+        p1, sp, res, m, w2 = run_one(mpop, msr, exe)
+        if not w2:
+            p1, sp, res, m, w2 = run_one(public(pop), sr, exe)
+            msr = sr
+        obj = {"property": PROP, "kind": w2[0] if w2 else why[0], "why": w2[1] if w2 else why[1],
+               "pop": dict(public(p1), searches=[msr]), "spec": sp, "impl": res.get("raw"),
+               "model_of_patched_code": m and m["fixed"], "model_of_unpatched_code": m and m["orig"], "seed": seed,
+               "replay_cmd": "bin/check C02 --replay <this file>"}
+        if m and res.get("status") == "OK" and same_obs(res, m["orig"]) and not same_obs(res, m["fixed"]):
+            obj["explained_by"] = "identical to the faithful model of the unpatched searchStreams (fall-through after the sorted full scan / early exit with secondary sort keys): fixes/C02-*.patch not applied to this tree"
+        violation(PROP, obj)
+        nviol += 1
+    if "tag-inline-reftime" in known_ids and "tag-inline-reftime" not in seen_known and not replay:
+        log("note: known finding tag-inline-reftime did not reproduce on this tree (fixed?)")
+    # ---- the model / the proof / the harness
+    if model_bad and nviol == 0:
+        pi, si, why = model_bad[0]
+        pop, sr = pops[pi], pops[pi]["searches"][si]
+        violation(PROP, {"property": PROP, "broken": "correspondence: the extracted model (theories/Search.v, patched variant) violates the oracle "
+                         "or is missing although the implementation agrees; theorems of props/C02.v no longer describe the code",
+                         "why": list(why), "pop": dict(public(pop), searches=[sr]), "model": model.get((pi, si)),
+                         "impl": impl.get((pi, si), {}).get("raw")}, no_input=True)
+        nviol += 1
+    if note and nviol == 0:
+        violation(PROP, {"property": PROP, "broken": "correspondence harness or model could not be built/run against this tree", "note": note}, no_input=True)
+        nviol += 1
+    if not proof.good() and nviol == 0:
+        violation(PROP, {"property": PROP, "broken": proof.failure_text(), "searched": stats["searches"]}, no_input=True)
+        nviol += 1
+    cov = proof.coverage()
+    sample = pops[-1]["searches"][-1] if pops and pops[-1]["searches"] else {}
+    cov.update({
+        "trusted_base": TRUSTED_COMMON + [
+            "`matches` is a given predicate: query normalisation (C03) and payload filters (C04) are not modelled here; the model is fed with what the real buildSearchObjects compiled per (file, conjunct): possible / lookups / truth table of the filters",
+            "model compares absolute times and host bytes; the code compares file-relative ns inside one file (equal while ReferenceTime + ns does not overflow)",
+            "sort.Search, sort.Slice and Go map iteration are modelled (binary search function; lookups as sets), not verified",
+            "grouping, sub-queries, variables and converters are outside the model",
+            "the Python oracle (visible newest versions, generator's ground truth for the query, cmp_to_key sort, slice)"],
+        "evaluations": stats["searches"],
+        "distinct_nontrivial": len(distinct),
+        "rule": "seeded populations (1-60 streams, 1-4 index files, shadowed older versions with different attributes, value pools small enough "
+                "for ties) x 0-4 tags (decided / undecided with stale bits, nested definitions) x 35 searches each (query AST with known meaning: "
+                "id/port/bytes/host/protocol/time/tag atoms, lists, ranges, AND/OR/NOT) x 0-3 sort keys x limit in {0,1,2,5,100} x skip x id restriction; "
+                "non-trivial = non-empty expected page, distinct by (population, query, sort, limit, skip, ids); compared: impl = direct oracle "
+                "(key sequence, membership, no duplicates, visible version attributes, length, more flag); extracted model (patched variant) = oracle, "
+                "and id-by-id against the implementation (tie order differences counted as tie_drift, never an alarm)",
+        "stats": stats, "generator_distribution": dist, "corpus_cases": ncorpus, "go_seconds": round(go_s, 1),
+        "known_findings_seen": sorted(seen_known), "known_failures": nknown,
+        "samples": [{"q": sample.get("q"), "sort": sample.get("sort"), "limit": sample.get("limit"), "skip": sample.get("skip"),
+                     "impl": impl.get((len(pops) - 1, len(pops[-1]["searches"]) - 1), {}).get("raw") if pops else None}],
+        "disagreements": nviol, "fixed_findings": fixed,
+    })
+    write_evidence(PROP, tier, seed, cov,
+                   ["every decided tag bit is correct (C06 establishes it); undecided bits arbitrary",
+                    "limit = 0 implies skip = 0 (the manager computes skip = page * limit)",
+                    "tag graph acyclic (C11)", "no grouping, sub-queries or data filters in the generated queries"],
+                   time.time() - t0, nviol)
+    return 1 if nviol else 0
